@@ -154,6 +154,12 @@ def synth_inputs(ctx, pv):
     for c in codes:
         for s in signos:
             rec(s, c)
+    # boundary values of the process fields: a sender outside the PID namespace has pid 0, root has uid 0
+    for c in codes:
+        for s in signos[:6]:
+            ins.append((s, c, 0, 0))
+            ins.append((s, c, 0, 1000))
+            ins.append((s, c, 4242, 0))
     n = 400 if ctx.tier == 'quick' else 20000
     for _ in range(n):
         k = rnd.random()
